@@ -357,7 +357,7 @@ namespace cds { namespace algo {
             assert( !eos());
             assert( is_correct( count ));
 
-            int_type result = ( number_ >> shift_ ) & (( 1 << count ) - 1 );
+            int_type result = ( number_ >> shift_ ) & (( static_cast<int_type>( 1 ) << count ) - 1 );
             shift_ += count;
 
             return result;
